@@ -246,6 +246,7 @@ func (s *Support) Cases(thorough bool) []*Case {
 	}
 	sp("CXEmptyS", "empty-struct", &Record{Kind: Struct})
 	sp("CXEmptyM", "empty-message", &Record{Kind: Message})
+	sp("CXEmptyU", "empty-union", &Record{Kind: Union})
 	sp("CXIdx", "message-sparse-indices", &Record{Kind: Message, Fields: []Field{{Name: "lo", Index: 1, Type: P("int32")}, {Name: "mid", Index: 7, Type: P("string")}, {Name: "hi", Index: 255, Type: P("uint16")}}})
 	sp("CXOpS", "struct-opcode", &Record{Kind: Struct, OpCode: "0x12345678", Fields: []Field{{Name: "x", Type: P("int32")}}})
 	sp("CXOpM", "message-opcode", &Record{Kind: Message, OpCode: "\"ABCD\"", Fields: []Field{{Name: "x", Index: 1, Type: P("int32")}}})
